@@ -41,6 +41,12 @@ type Op struct {
 	// Raw, when set, is the JSON text to send instead of the structured form
 	// (used for deliberately malformed operations).
 	Raw json.RawMessage `json:"raw,omitempty"`
+	// Poison marks a deliberately failing operation: the model does not interpret it
+	// and expects an error of this class ("error" = any error) at this position.
+	Poison string `json:"poison,omitempty"`
+	// PoisonPre: the implementation detects this failure in its validation pass, before
+	// any operation runs, and reports it in the first result.
+	PoisonPre bool `json:"poisonPre,omitempty"`
 }
 
 // UUIDCol describes the implicit _uuid column.
